@@ -315,7 +315,7 @@ let ghost mut mid: Option<Expression> = None;
         
 //@ after "let index_type = index.analyze(table);"
             proof { mid = Some(index.reference); }
-//@ before "match self.array"
+//@ before "(match self.array"
 proof {
             let o = *old(self);
             if o.index is Some {
